@@ -15,6 +15,7 @@
 //verif:obligation C19.a server: PeerIDAuthHandshakeServer.Run followed by PeerID reports a client peer ID only if (challenge flow) the opaque state authenticated under the server's HMAC, is a challenge (not a token), is not older than 5 minutes, carries the request's hostname, and the client's signature over (that state's challenge, the server's public key, the hostname) verifies under the key whose ID is reported - the key bound in the state for client-initiated handshakes, otherwise the presented one; or (bearer flow) the token authenticated under the HMAC, is a token, and is not older than TokenTTL, and the ID is the token's
 //verif:obligation C19.b genDataToSign is injective: a reference parser recovers every (key, value) part and consumes the whole buffer for value lengths crossing the 127/128 varint edge
 //verif:obligation C19.c client: after every ParseHeader / Run step of both flows, PeerID / ServerAuthenticated answer only if a signature over (the client's current challenge, the client's key, the hostname) verified under the very key whose peer ID is reported, and a server key once learned is never replaced
+//verif:obligation C19.a' the same holds for a handshake object that served another client (token or challenge, any bound key) and was Reset: nothing of the previous exchange is visible to the next one (the opaque-state hook follows json.Unmarshal's semantics: fields the blob omits keep their previous value)
 //verif:bound one server Run per run with every parameter-presence combination the state selection accepts; client histories of <= 4 ParseHeader+Run rounds; value lengths 0..300 in genDataToSign
 //verif:stub header parsing, opaque state (de)serialisation (JSON + HMAC: symbolic "authentic" flag, then arbitrary fields), public-key (un)marshalling, peer.IDFromPublicKey and the header builder are replaced through hooks; keys are stub objects whose Verify logs its arguments and answers symbolically; clock and randomness through the package's own nowFn / randReader variables
 //verif:outside HMAC-SHA256 and signature strength, JSON encoding, header syntax mutation at scale, key types
@@ -104,6 +105,10 @@ func vC19expect(parts []sigParam) []byte {
 
 var vC19b64 = []byte("QUJD") // base64url("ABC")
 
+type vC19hmac struct{ hash.Hash }
+
+func (vC19hmac) Reset() {}
+
 func VerifC19aServer() {
 	defer vC19remove()
 	now := vRange64(1<<40, 1<<60)
@@ -150,11 +155,36 @@ func VerifC19aServer() {
 		if !authentic {
 			return ErrInvalidHMAC
 		}
-		*o = st
+		// json.Unmarshal into the existing struct: fields the blob omits (omitempty) keep their old value
+		if st.IsToken {
+			o.IsToken = true
+		}
+		if st.ClientPublicKey != nil {
+			o.ClientPublicKey = st.ClientPublicKey
+		}
+		if st.PeerID != "" {
+			o.PeerID = st.PeerID
+		}
+		if st.ChallengeClient != "" {
+			o.ChallengeClient = st.ChallengeClient
+		}
+		o.Hostname, o.CreatedTime = st.Hostname, st.CreatedTime
 		return nil
 	}
 	ttl := time.Duration(vRange64(0, 1<<50))
-	h := &PeerIDAuthHandshakeServer{Hostname: "example.com", PrivKey: &vC19priv{pub: serverKey}, TokenTTL: ttl}
+	h := &PeerIDAuthHandshakeServer{Hostname: "example.com", PrivKey: &vC19priv{pub: serverKey}, TokenTTL: ttl, Hmac: vC19hmac{}}
+	if vBool() {
+		// the handshake object served another client before and was Reset (as the package's own tests and
+		// benchmarks do): nothing of that exchange may leak into this one
+		h.opaque = opaqueState{IsToken: vBool(), PeerID: "previous-client", ChallengeClient: "previous-challenge", Hostname: "example.com", CreatedTime: time.Unix(0, now)}
+		if vBool() {
+			h.opaque.ClientPublicKey = []byte("bound")
+		}
+		h.state = peerIDAuthServerStateVerifyBearer
+		h.ran = true
+		h.Reset()
+		vCover("reused-after-reset")
+	}
 	if err := h.ParseHeaderVal([]byte("libp2p-PeerID x")); err != nil {
 		vCover("header-rejected")
 		_, perr := h.PeerID()
